@@ -708,6 +708,17 @@ func (e *Env) evalCall(x *ECall) Val {
 		a := arg(0)
 		fc.d.Fun("is_map_type", []Sort{SInt}, SBool)
 		return Val{T: App(SBool, "is_map_type", a.T), Typ: tb}
+	case "rkind": // reflect.Kind of a type id (ground facts for every type known to the run)
+		a := arg(0)
+		return Val{T: fc.rkindOf(a.T, e.inQuant > 0), Typ: ti}
+	case "tKey": // key type id of a map type id
+		a := arg(0)
+		fc.d.Fun("tid_key", []Sort{SInt}, SInt)
+		return Val{T: App(SInt, "tid_key", a.T), Typ: ti}
+	case "tElem": // element type id of a map, slice, array or pointer type id
+		a := arg(0)
+		fc.d.Fun("tid_elem", []Sort{SInt}, SInt)
+		return Val{T: App(SInt, "tid_elem", a.T), Typ: ti}
 	case "comparableAny":
 		a := arg(0)
 		return Val{T: fc.comparableAny(a.T), Typ: tb}
@@ -1049,4 +1060,103 @@ func (fc *FuncCtx) elemPut(v *Term, et types.Type) *Term {
 		return fc.box(v)
 	}
 	return v
+}
+
+// rkindOf: the reflect.Kind number of a type id, linked to the interface-constructor kind
+// (tid_kind) and the map-type flag by ground instances at the use.
+func (fc *FuncCtx) rkindOf(t *Term, inQuant bool) *Term {
+	fc.d.Fun("tid_rkind", []Sort{SInt}, SInt)
+	fc.d.Fun("tid_kind", []Sort{SInt}, SInt)
+	fc.d.Fun("is_map_type", []Sort{SInt}, SBool)
+	r := App(SInt, "tid_rkind", t)
+	if inQuant {
+		return r
+	}
+	k := App(SInt, "tid_kind", t)
+	isMap := App(SBool, "is_map_type", t)
+	in := func(x *Term, vals ...int64) *Term {
+		var ors []*Term
+		for _, v := range vals {
+			ors = append(ors, Eq(x, IntLit(v)))
+		}
+		return Or(ors...)
+	}
+	fc.addAxiom(And(
+		Ge(r, IntLit(0)), Le(r, IntLit(26)),
+		Eq(Eq(t, IntLit(0)), Eq(r, IntLit(0))),
+		Eq(isMap, Eq(r, IntLit(21))),
+		Implies(Eq(k, IntLit(1)), Eq(r, IntLit(1))),
+		Implies(Eq(k, IntLit(2)), Eq(r, IntLit(24))),
+		Eq(Eq(k, IntLit(3)), And(Ge(r, IntLit(2)), Le(r, IntLit(12)))),
+		Eq(Eq(k, IntLit(4)), in(r, 13, 14)),
+		Eq(Eq(k, IntLit(5)), in(r, 21, 22)),
+		Eq(Eq(k, IntLit(6)), Eq(r, IntLit(19))),
+		Implies(Eq(k, IntLit(7)), in(r, 1, 15, 16, 17, 18, 20, 23, 24, 25, 26)),
+		Implies(Not(Eq(t, IntLit(0))), And(Ge(k, IntLit(1)), Le(k, IntLit(7))))))
+	return r
+}
+
+// reflectKindOf: reflect.Kind number of a Go type.
+func reflectKindOf(t types.Type) int {
+	if a, ok := t.(*types.Alias); ok {
+		t = types.Unalias(a)
+	}
+	switch ut := t.Underlying().(type) {
+	case *types.Basic:
+		switch ut.Kind() {
+		case types.Bool:
+			return 1
+		case types.Int:
+			return 2
+		case types.Int8:
+			return 3
+		case types.Int16:
+			return 4
+		case types.Int32:
+			return 5
+		case types.Int64:
+			return 6
+		case types.Uint:
+			return 7
+		case types.Uint8:
+			return 8
+		case types.Uint16:
+			return 9
+		case types.Uint32:
+			return 10
+		case types.Uint64:
+			return 11
+		case types.Uintptr:
+			return 12
+		case types.Float32:
+			return 13
+		case types.Float64:
+			return 14
+		case types.Complex64:
+			return 15
+		case types.Complex128:
+			return 16
+		case types.String:
+			return 24
+		case types.UnsafePointer:
+			return 26
+		}
+	case *types.Array:
+		return 17
+	case *types.Chan:
+		return 18
+	case *types.Signature:
+		return 19
+	case *types.Interface:
+		return 20
+	case *types.Map:
+		return 21
+	case *types.Pointer:
+		return 22
+	case *types.Slice:
+		return 23
+	case *types.Struct:
+		return 25
+	}
+	return 0
 }
